@@ -451,6 +451,9 @@ class FeedChecker(ProgMixin):
         bytes
             A piece length sized block of zeros.
         """
+        # a piece completed by the previous file has already been yielded
+        if len(partial) == self.piece_length:
+            partial = bytearray()
         while read < length:
             left = self.piece_length - len(partial)
             if length - read > left:
